@@ -334,7 +334,7 @@ theorem setVal_unmark_commutes (vals : List Value) (hashes : List (Option Int))
       cases ha : setAddAll et ps hashes [] [] with
       | ok idv =>
         obtain ⟨ids, vs⟩ := idv
-        simp only [Res.map, Res.ok.injEq]
+        simp only [Res.ok.injEq]
         have hclean : (⟨.set et, .sset ids vs⟩ : Value).containsMarked = false := by
           show Payload.containsMarked (.sset ids vs) = false
           simp only [Payload.containsMarked, Payload.containsMarkedL_eq_any, List.any_eq_false]
